@@ -75,9 +75,25 @@ import "github.com/acquirecloud/golibs/kvs"
 //@   ensures r.ExpiresAt != nil ==> sameInstant(*r0.ExpiresAt, *r.ExpiresAt)
 func lemmaRecordRoundTrip(r *kvs.Record) kvs.Record { return db2rec(rec2db(r)) }
 
-//@ spec rkeyOf(key string) string = uninterpreted
-//@ assumed func rKey(key string) string
+// key prefixing: rKey(key) is "/kvs/" followed by the key without its leading slashes.  nlead(k) - the number of leading
+// slashes of k - is introduced by its defining property (it exists and is unique for every string); rKey is verified
+// against rkeyOf, the loop by invariant, fmt.Sprintf("/kvs/%s", ..) as concatenation.
+//@ spec nlead(k string) int = uninterpreted
+//@ axiom nleadDef(k string): 0 <= nlead(k) && nlead(k) <= len(k) && forall(i, 0, nlead(k), k[i] == '/') && (nlead(k) < len(k) ==> k[nlead(k)] != '/')
+//@ spec rkeyOf(key string) string = concat("/kvs/", key[nlead(key):])
+//@ func rKey(key string) string
+//@   props C02 C03 C06 C07
 //@   ensures r0 == rkeyOf(key)
+//@   loop 1
+//@     invariant len(key) <= len(key0) && key == key0[len(key0) - len(key):] && len(key0) - len(key) <= nlead(key0)
+// [C03] ListKeys hands out keys in the form Get/Put/Delete accept them: taking the prefix off a prefixed key gives the key
+// back (without its leading slashes) - so prefixing loses nothing: keys that differ after their leading slashes get
+// different redis keys
+//@ lemma func lemmaKeyRoundTrip(k string) string
+//@   props C03
+//@   ensures r0 == k[nlead(k):]
+func lemmaKeyRoundTrip(k string) string { return key(rKey(k)) }
+
 //@ func rKeys(keys []string) []string
 //@   props C03
 //@   ensures len(r0) == len(keys) && forall(i, 0, len(keys), r0[i] == rkeyOf(keys[i]))
